@@ -54,9 +54,8 @@ ImplPrice(r, prod, c) == Ip(r, prod) \cap c.off # {} /\ ~(r.snap /\ c.esm # "off
 ImplNoSnapshot(r, c) == r.snap /\ c.esm \in NoSnapshot
 ImplOk(r, prod, c) == ~(ImplBreaker(r, c) \/ ImplEsm(r, c) \/ ImplPrice(r, prod, c) \/ ImplNoSnapshot(r, c))
 
-(* not predicted: a market bid with NO debt price record at all computes with a zero price; whether it then fails depends on *)
-(* the auction's dust arithmetic, not on a guard                                                                           *)
-ImplUnpredicted(r, c, pm) == r.pk = "bid" /\ pm = "missing" /\ "out" \in c.off
+(* nothing is left unpredicted since the market bid checks its debt price record (repair faaa56e) *)
+ImplUnpredicted(r, c, pm) == FALSE
 
 (* the step of the abstract state: a rejected message leaves the abstract app state unchanged *)
 Step(s, r, prod, c) == IF ImplOk(r, prod, c) THEN [ok |-> TRUE, st |-> [s EXCEPT !.ver = s.ver + 1]]
